@@ -4,8 +4,8 @@ seeded/RESULTS.md + RESULTS.json.
 
 Each patch is applied in its OWN scratch worktree of /repo HEAD under /tmp (removed afterwards); the check runs against that
 worktree through the development override EAO_REPO, so /repo itself is not touched, evidence/ is not rewritten and several
-changes run in parallel.  Exception: C11 regenerates the schema model from the source it checks, so the C11 changes are applied
-to /repo itself, one after the other, and the schema model is regenerated from the clean tree afterwards.
+changes run in parallel.  C11 regenerates the schema model from the source it checks (through EAO_REPO from the worktree): the C11 changes run one
+after the other and the schema model is regenerated from /repo afterwards.
 
 usage: tools/seeded_matrix.py [-j N] [id ...]"""
 import json, os, re, subprocess, sys
@@ -96,8 +96,8 @@ with ThreadPoolExecutor(jobs) as ex:
 c11 = [i for i in ids if i.startswith('C11-')]
 if c11:
     keep = open(os.path.join(ROOT, 'evidence', 'C11.json')).read()      # keep the evidence of the clean tree
-    for sid in c11:
-        sid, r = run_in_repo(sid)
+    for sid in c11:      # one after the other (they share the generated schema model), each in its own worktree like the others
+        sid, r = run_wt(sid)
         res[sid] = r
     sh(['/venv/bin/python', 'harness/schema_gen.py', '--repo', '/repo', '--out', 'lean/EAO/Generated/Schema.lean'], cwd=ROOT)
     open(os.path.join(ROOT, 'evidence', 'C11.json'), 'w').write(keep)
